@@ -1,4 +1,26 @@
-(* placeholder so that the pipeline can be exercised; replaced by the real theorems *)
-From SV Require Import Names Rep.
-Theorem C18_placeholder : True. Proof. exact I. Qed.
-Print Assumptions C18_placeholder.
+(* C18 -- generators build exactly the advertised spaces.
+   Theorem statements only; proofs (by computation in the kernel) in Sweeps.v, over the range the
+   property states: k <= 6, n <= 12, lattices up to 6 x 6; targets: every complex on <= 3 points. *)
+From Coq Require Import String ZArith Bool Arith List.
+From SV Require Import Names Rep Complex Homology Filtration Gen World Small Sweeps.
+
+(* k_simplex(k): C(k+1, j+1) simplices of order j, Betti 1,0,..,0, top simplex named as asked;
+   k_void(k): all proper faces of a (k+1)-simplex, a k-sphere; k_skeleton(k): k+1 points and all
+   edges; ring(n): n points, n edges, every point on two edges, Betti 1,1 (ValueError for n <= 2) *)
+Theorem C18_generators_in_range :
+  forallb chk_k_simplex (seq 0 7) && forallb chk_k_void (seq 0 6) && forallb chk_k_skeleton (seq 0 7) &&
+  forallb chk_ring (seq 0 13) = true.
+Proof. exact sweep_generators. Qed.
+Print Assumptions C18_generators_in_range.
+
+(* TriangularLattice(r, c), 1 <= r, c <= 6: r*c points; for r >= 2 Euler characteristic 1,
+   Betti 1,0,0 (connected, no holes), no simplex above order 2 *)
+Theorem C18_lattices_in_range : forallb (fun r => forallb (chk_lattice r) (seq 1 6)) (seq 1 6) = true.
+Proof. exact sweep_lattices. Qed.
+Print Assumptions C18_lattices_in_range.
+
+(* each generator, called on an existing complex, leaves every pre-existing simplex as it was and
+   builds its structure on fresh points *)
+Theorem C18_target_intact_upto3_partial : forall c, In c complexes3 -> chk_gen_frame c = true.
+Proof. exact generators_frame_upto3. Qed.
+Print Assumptions C18_target_intact_upto3_partial.
